@@ -52,11 +52,11 @@ _IDENT = ['top1', 'tie', 'cmident', 'pdslice', 'cmreject']
 MIN_HITS = {
     'quick': dict({f'mon:{f}': 60 for f in FAMILY.values()}, **{f'mon:{f}': 40 for f in _IDENT},
                   **{'edge:tie': 100, 'edge:fully-masked': 60, 'edge:k<1': 40, 'edge:k>=C': 40, 'edge:logits-mask': 40, 'edge:logits-mask-finite-bias': 40, 'pdslice:overflowing-example': 5,
-                     'edge:extreme': 60, 'edge:per-position': 40, 'edge:masked-token': 100}),
+                     'edge:extreme': 60, 'edge:per-position': 40, 'edge:masked-token': 100, 'hit:numpy-inputs': 800}),
     'thorough': dict({f'mon:{f}': 600 for f in FAMILY.values()}, **{f'mon:{f}': 400 for f in _IDENT},
                      **{'edge:tie': 1000, 'edge:fully-masked': 600, 'edge:k<1': 400, 'edge:k>=C': 400,
                         'edge:logits-mask': 400, 'edge:logits-mask-finite-bias': 400, 'pdslice:overflowing-example': 50, 'edge:extreme': 600, 'edge:per-position': 400,
-                        'edge:masked-token': 1000}),
+                        'edge:masked-token': 1000, 'hit:numpy-inputs': 15000}),
 }
 
 
@@ -366,9 +366,14 @@ def keys_choice(rng):
   return tkey, pkey, dkey
 
 
-def pack(jnp, a, tkey, pkey, dkey, y, pred, dom):
-  ex = {tkey: jnp.asarray(y), dkey: jnp.asarray(dom)}
-  p = jnp.asarray(pred)
+def pack(jnp, a, tkey, pkey, dkey, y, pred, dom, numpy_inputs=False):
+  if numpy_inputs:
+    # plain (writable) NumPy arrays, as batches coming out of a ClientDataset are: the caller keeps using them afterwards
+    ex = {tkey: np.array(y), dkey: np.array(dom)}
+    p = np.array(pred)
+  else:
+    ex = {tkey: jnp.asarray(y), dkey: jnp.asarray(dom)}
+    p = jnp.asarray(pred)
   return ex, (p if pkey is None else {pkey: p})
 
 
@@ -413,9 +418,11 @@ def run(ctx):
         base = None
         metric, a = mg.make_metric(M, name, rng, C, L, tkey, pkey)
       y, pred, dom = gen_example(rng, a, C, L, D)
-      ex, p = pack(jnp, a, tkey, pkey, dkey, y, pred, dom)
+      numpy_inputs = (i // (len(shapes) * len(names))) % 3 == 1
+      ex, p = pack(jnp, a, tkey, pkey, dkey, y, pred, dom, numpy_inputs)
       flags = edge_flags(a, C, y, pred)
-      wit = {'metric': a, 'C': C, 'L': L, 'target': y, 'scores': pred, 'domain': int(dom), 'edges': flags}
+      wit = {'metric': a, 'C': C, 'L': L, 'target': y, 'scores': pred, 'domain': int(dom), 'edges': flags,
+             'inputs': 'numpy' if numpy_inputs else 'jax'}
       fam = FAMILY[name]
       r = ctx.call(f'{name}.evaluate_example', metric.evaluate_example, ex, p, witness=wit)
       if r.ok:
@@ -423,6 +430,23 @@ def run(ctx):
           compare(ctx, fam, r.value, ref_stat(a, y, pred), flags, wit)
         else:
           check_perdomain_single(ctx, jnp, base[0], r.value, ex, p, int(dom), D, flags, wit)
+      if numpy_inputs and r.ok:
+        # the caller's arrays are inputs, not scratch space: unchanged after the call, and scoring them again (same metric,
+        # then the plain definition-level metrics) gives what the ORIGINAL scores give
+        parr = p if pkey is None else p[pkey]
+        ctx.count('hit:numpy-inputs')
+        intact = core.bit_equal(parr, pred) and core.bit_equal(ex[tkey], y) and core.bit_equal(ex[dkey], dom)
+        ctx.check(intact, 'inputs/evaluate_example-modified-its-arguments',
+                  'evaluate_example changed the caller\'s NumPy example / prediction arrays in place',
+                  dict(wit, prediction_after=parr, target_after=ex[tkey]))
+        r2 = ctx.call(f'{name}.evaluate_example', metric.evaluate_example, ex, p, witness=dict(wit, call='second, same arrays'))
+        if r2.ok:
+          n1, f1 = fields(r.value)
+          n2, f2 = fields(r2.value)
+          same = n1 == n2 and all(core.bit_equal(f1[k], f2[k]) for k in f1)
+          ctx.check(same, 'inputs/second-evaluation-of-same-arrays-differs',
+                    'evaluating the same metric on the same NumPy arrays a second time gives a different statistic',
+                    dict(wit, first=f1, second=f2))
       count_edges(ctx, flags)
       ctx.case_done((repr(a), C, L, digest(y, pred), int(dom)) if flags else None, sample=wit,
                     klass=[name] + ['edge:' + f for f in flags])
